@@ -273,6 +273,8 @@ class LifecycleWorld(World):
                 ops.append({"op": "drop_t0"})
             else:
                 ops.append({"op": "new_t0", "kind": ro.choice(TKINDS), "variant": ro.choice([0, 1]), "cells": sorted(ro.sample(range(ncell), ro.randint(1, ncell)))})
+            if layout == "two_serial" and stream(seed, f"strip{len(ops)}").random() < 0.12:
+                ops.append({"op": "strip", "cell": stream(seed, f"stripcell{len(ops)}").randrange(ncell)})
         ops.append({"op": "step", "seed": ro.randrange(1 << 30), "p": 0.8})
         return {"config": cfg, "ops": ops}
 
@@ -541,6 +543,28 @@ class LifecycleWorld(World):
                 A.watch("t0")
                 disruptive_seen = True
                 ctx.fault("add_monitor")
+            elif name == "strip":
+                # every monitor of one T0 cell is deleted one by one, then the cell's post-synaptic spike recorder is added again exactly as the
+                # trainers add it (pooled, not unique): it must not turn out to be the monitor of a cell that lives in another layer; the cell
+                # is then deleted (the trainer cannot step a cell without its monitors)
+                nm = f"cell{op['cell']}"
+                if nm not in A.reg["t0"] or A.kind["t0"] == "LinearHomeostasis":
+                    continue
+                dt = cfg["dt"]
+                with ctx.impl("del_monitor (all of a cell)", dict(facts, trainer="t0")):
+                    for mn in sorted(m for m, _ in A.trainers["t0"].named_monitors_of(nm)):
+                        A.trainers["t0"].del_monitor(nm, mn)
+                    A.trainers["t0"].add_monitor(nm, "spike_post", "neuron.spike",
+                                                 observe.StateMonitor.partialconstructor(reducer=observe.PassthroughReducer(dt, duration=0.0, inclusive=True), as_prehook=False,
+                                                                                         train_update=True, eval_update=False, prepend=True),
+                                                 False, dt=dt)
+                ctx.fault("cell_stripped_and_recorder_re_added")
+                ctx.judged += 1
+                self._foreign_monitor(ctx, dict(facts, after="strip"), A, nm)
+                with ctx.impl("del_cell", dict(facts, trainer="t0")):
+                    A.trainers["t0"].del_cell(nm)
+                del A.reg["t0"][nm]
+                disruptive_seen = True
             elif name == "t0_mode":
                 with ctx.impl("trainer.train/eval", dict(facts, trainer="t0")):
                     A.trainers["t0"].train(op["train"])
@@ -602,6 +626,21 @@ class LifecycleWorld(World):
                         ctx.judged += 1
                         if v is None or not torch.equal(v.bool(), cell.connection.synspike.bool()):
                             ctx.fail("monitor_redirected", dict(facts, trainer=tag, system=sname, monitor="spike_pre"), f"{tag}/{nm}.spike_pre does not hold its own cell's presynaptic spikes")
+
+    @staticmethod
+    def _foreign_monitor(ctx, facts, A, nm):
+        """no monitor listed under cell nm of T0 is the monitor object of a cell (of any trainer) that lives in another layer"""
+        j = A.reg["t0"][nm]
+        mine = {id(m): mn for mn, m in A.trainers["t0"].named_monitors_of(nm)}
+        for tag, tr in A.trainers.items():
+            for other, jo in A.reg[tag].items():
+                if A.cell_layer[jo] == A.cell_layer[j]:
+                    continue
+                for mn, m in tr.named_monitors_of(other):
+                    if id(m) in mine:
+                        ctx.fail("monitor_redirected", dict(facts, monitor=mine[id(m)], trainer="t0"),
+                                 f"T0 cell {nm} (layer {A.cell_layer[j]}): its monitor {mine[id(m)]} is the monitor object of {tag} cell {other} in layer {A.cell_layer[jo]}")
+                        return
 
     @staticmethod
     def _sibling_recording(ctx, facts, A, Cc):
